@@ -5,7 +5,7 @@ PROP = {'modules': ['AmVerif.Props.C02'],
              {'name': 'conc', 'quick': 6, 'thorough': 60}],
  'rule': 'random operation sequences (5-60 ops) over load / load_owned / get_cached / get_or_insert / contains / remove / take / clear / directory '
          'loads on all front-ends (AssetCache, LocalAssetCache, AnyCache views; with reloader, without_hot_reloading, source without hot-reloading '
-         'support), ids drawn 80% from a 7-id tree whose script assets load / look up / load_owned each other (nested, failing, panicking loads), a '
+         'support), ids drawn 80% from a 7-id tree whose script assets load / look up / load_owned / get_or_insert each other (nested, failing, panicking loads; a share of scripts call get_or_insert, one case in five has a parent that fills ITS OWN slot and a child that loads the parent back), a '
          'malformed stream (absent ids, empty id, unicode, spaces, 70-char ids, wrong type for id); every 7th case is a seeded slice of the '
          'bounded-exhaustive enumeration of all length-3 sequences over 2 ids x 2 types x 8 ops; second run under taskset with 3 CPUs (different '
          "shard count); oracle = C02's statement on snapshots of the whole key universe after every op; non-trivial = executed a cache op; distinct "
